@@ -82,6 +82,8 @@ type ZipOpts struct {
 	Deflate []bool // per table (default store)
 	CRLF    bool
 	BOM     bool
+	// NoFinalNewline: the last row of every member is not terminated
+	NoFinalNewline bool
 }
 
 // Zip serialises the feed.
@@ -97,7 +99,11 @@ func (f *Feed) Zip(o ZipOpts) []byte {
 		if err != nil {
 			panic("harness: zip: " + err.Error())
 		}
-		w.Write(tb.CSV(o.CRLF, o.BOM && i == 0))
+		body := tb.CSV(o.CRLF, o.BOM && i == 0)
+		if o.NoFinalNewline && tb.Raw == nil {
+			body = bytes.TrimRight(body, "\r\n")
+		}
+		w.Write(body)
 	}
 	if err := zw.Close(); err != nil {
 		panic("harness: zip: " + err.Error())
@@ -491,7 +497,7 @@ func GenStatic(t *sim.T, c StaticCfg) *StaticModel {
 }
 
 func DrawZipOpts(t *sim.T, n int) ZipOpts {
-	o := ZipOpts{CRLF: t.Chance(1, 4), BOM: t.Chance(1, 6)}
+	o := ZipOpts{CRLF: t.Chance(1, 4), BOM: t.Chance(1, 6), NoFinalNewline: t.Chance(1, 4)}
 	mode := t.Choose(3) // all store, all deflate, mixed
 	for i := 0; i < n; i++ {
 		switch mode {
